@@ -364,6 +364,9 @@ func registerType(tov reflect.Type) error {
 
 	case reflect.Slice:
 		itemType := tov.Elem()
+		if encodesToNothing(itemType) {
+			return fmt.Errorf("slice of zero-size elements (%v) is not supported", tov)
+		}
 
 		// encoder
 		enc, err := getEncoder(itemType, &stateEncode{})
@@ -463,6 +466,9 @@ func registerType(tov reflect.Type) error {
 
 	case reflect.Array:
 		itemType := tov.Elem()
+		if encodesToNothing(itemType) && tov.Len() > 0 {
+			return fmt.Errorf("array of zero-size elements (%v) is not supported", tov)
+		}
 
 		// encoder
 		enc, err := getEncoder(itemType, &stateEncode{})
